@@ -598,6 +598,11 @@ func callSSA(i *interpreter, caller *frame, callpos token.Pos, fn *ssa.Function,
 	} else if fn.Pkg != nil && i.cfg.trackPkg(fn.Pkg.Pkg.Path()) {
 		i.pc.stats.FuncsEntered[fn.String()] = true
 	}
+	if i.cfg.UFStubs != nil && i.cfg.UFStubs[fn.String()] && !i.pc.concrete {
+		if v, ok := callAsUF(i, fn, args); ok {
+			return v
+		}
+	}
 	if i.cfg.MergeFuncs != nil && i.cfg.MergeFuncs[fn.String()] && !i.pc.concrete && !i.noMerge {
 		if v, ok := callMerged(i, caller, callpos, fn, args, env); ok {
 			return v
